@@ -1481,6 +1481,26 @@ impl FilterToIndexScanRule {
             return None;
         }
 
+        // A row with NULL in an indexed column has no index entry. Such a row can only be left out if the
+        // predicate rejects it anyway, i.e. if every indexed column that may be NULL carries a bound
+        // (a comparison with NULL is never true).
+        let bounded = |position: usize| {
+            range_start
+                .iter()
+                .chain(range_end.iter())
+                .flatten()
+                .any(|bound| bound.col_idx == position)
+        };
+        for (position, column_idx) in indexed_columns.iter().enumerate() {
+            let nullable = scan
+                .table_schema
+                .column(*column_idx)
+                .map_or(true, |column| !column.is_non_null);
+            if nullable && !bounded(position) {
+                return None;
+            }
+        }
+
         let mut index_scan = IndexScanOp::new(
             scan.table_id,
             index_handle.id(),
